@@ -85,16 +85,27 @@ def order_documents(rng):
         if defs:
             d["definitions"] = defs
         docs.append(d)
+    for _ in range(3):
+        # two revisions of one document: the same class (name, properties, keywords) refers to a class that was only re-titled
+        w1, w2 = rng.sample(words, 2)
+        inner = lambda title: obj(title, {w1: {"type": "string"}, "zip": {"type": "integer"}})
+        for title in (w1.title() + "Address", "Postal" + w1.title() + "Address"):
+            docs.append(obj("Order", {"ship_to": inner(title), w2: {"type": "array", "items": inner(title)}}, required=["ship_to"]))
     return docs
 
 
 def run_workers(paths, seeds, stats):
     outs = []
-    for seed in seeds:
+    for j, seed in enumerate(seeds):
+        # every process meets the documents in another order (what was generated before must not matter either), the first
+        # three staying first so that each process runs the console entry point on the same documents
+        rest = paths[3:]
+        k = (j * 7) % max(1, len(rest))
+        order = paths[:3] + (rest[k:] + rest[:k] if j % 2 == 0 else list(reversed(rest[k:] + rest[:k])))
         env = dict(os.environ)
         env["PYTHONHASHSEED"] = seed
         env["PYTHONPATH"] = os.environ.get("STATHAM_REPO", "/repo")
-        proc = subprocess.run([sys.executable, WORKER], input=json.dumps(paths), capture_output=True, text=True, env=env, timeout=1800, check=False)
+        proc = subprocess.run([sys.executable, WORKER], input=json.dumps(order), capture_output=True, text=True, env=env, timeout=1800, check=False)
         if proc.returncode != 0:
             stats["worker-failed"] = stats.get("worker-failed", 0) + 1
             raise RuntimeError("c09 worker failed: " + proc.stderr[-500:])
@@ -138,7 +149,8 @@ def run(ctx, scale=1.0):
             out.note_case(case, isinstance(names, list) and len(names) >= 2)
             if isinstance(recs[0].get("python"), str) and recs[0]["python"].startswith("exc:"):
                 stats["refused"] = stats.get("refused", 0) + 1
-            for field, what in (("python", "generated module text"), ("json", "JSON serialization"), ("names", "class names")):
+            for field, what in (("python", "generated module text"), ("json", "JSON serialization"), ("names", "class names"),
+                                ("cli_file", "file written by the console entry point")):
                 vals = [json.dumps(r.get(field)) for r in recs]
                 if len(set(vals)) > 1:
                     j = next(i for i, v in enumerate(vals) if v != vals[0])
